@@ -28,6 +28,7 @@ type Endpoint struct {
 	FirstSequence     uint32 // first sequence number to send (0 = 1)
 	FirstRequestID    uint32 // client: first request id (0 = 1)
 	Timestamp         int64  // DateTime written into headers and CreatedAt (refcodec never reads a clock)
+	OPNRequestType    uint32 // client: SecurityTokenRequestType of the first OpenSecureChannel (0 = Issue, 1 = Renew)
 
 	Style PadStyle   // padding style for symmetric chunks
 	OPN   OPNOptions // padding style / block fill for the OPN chunk
@@ -333,7 +334,7 @@ func (ch *Channel) open() error {
 	}
 	reqID := ch.NextRequestID()
 	req := &OpenSecureChannelRequest{Header: RequestHeader{Timestamp: ep.Timestamp, RequestHandle: reqID, TimeoutHint: 0},
-		RequestType: RequestIssue, SecurityMode: ep.Mode, ClientNonce: ch.LocalNonce, RequestedLifetime: ep.RequestedLifetime}
+		RequestType: ep.OPNRequestType, SecurityMode: ep.Mode, ClientNonce: ch.LocalNonce, RequestedLifetime: ep.RequestedLifetime}
 	ch.OpenRequest = req
 	out := &Chunk{Type: TypeOpen, IsFinal: Final, ChannelID: 0, PolicyURI: ep.Policy.URI, SenderCert: ep.CertDER,
 		SequenceNumber: ch.nextSeq(), RequestID: reqID, Body: req.Encode()}
